@@ -360,6 +360,7 @@ def expect(state, m):
                 ok(unchanged + nondup, w, note='end')
                 if ndup:
                     err()
+                    ex.classes.append('duplicate-skipped')
                 if k == 'EAStoryInsert':
                     ex.resolves = True
                     ex.classes.append('target=end')
